@@ -116,6 +116,7 @@ func (this *Dataset) SizeInfo(ctx context.Context) (uint64, uint64, error) {
 			errorCh <- nil
 		} else {
 			wg.Add(1)
+			partition := partition // per-iteration copy for the goroutine below
 			go func(ctx context.Context, wg *sync.WaitGroup, errorCh chan error, len *uint64, bytesSize *uint64) {
 				defer wg.Done()
 				client, err := this.getDataManagerClient(ctx, partition.randomNodeId())
